@@ -15,6 +15,8 @@ mod tape {
         /// and towards values drawn before) and recorded on the tape
         pub static SEARCH: RefCell<Option<u64>> = RefCell::new(None);
         pub static HINTS: RefCell<Vec<Option<u64>>> = RefCell::new(Vec::new());
+        /// saved rng states of the search streams (index = stream id), current stream id
+        pub static STREAMS: RefCell<(Vec<u64>, usize)> = RefCell::new((Vec::new(), 0));
     }
     fn rng(st: &mut u64) -> u64 {
         *st ^= *st << 13;
@@ -43,6 +45,28 @@ mod tape {
             _ => rng(st),
         };
         v.to_le_bytes()[..n].to_vec()
+    }
+    /// switch the search generator to an independent stream (one per simulated thread), so that
+    /// the number of draws one thread consumes does not shift the choices of the others
+    pub fn select_stream(id: usize) {
+        let cur = SEARCH.with(|s| *s.borrow());
+        if let Some(st) = cur {
+            STREAMS.with(|t| {
+                let mut t = t.borrow_mut();
+                let old = t.1;
+                if t.0.len() <= old.max(id) {
+                    let base = t.0.first().copied().unwrap_or(st);
+                    while t.0.len() <= old.max(id) {
+                        let k = t.0.len() as u64;
+                        t.0.push((base ^ k.wrapping_mul(0x9E3779B97F4A7C15)).wrapping_mul(0xD1B54A32D192ED03) | 1);
+                    }
+                }
+                t.0[old] = st;
+                t.1 = id;
+                let ns = t.0[id];
+                SEARCH.with(|s| *s.borrow_mut() = Some(ns));
+            });
+        }
     }
     /// an 8-byte draw that, in search mode, takes the hinted value when there is one
     pub fn next_suggest(hint: Option<u64>) -> u64 {
@@ -144,7 +168,16 @@ mod tape {
 pub fn start_search(seed: u64) {
     tape::TAPE.with(|c| *c.borrow_mut() = (Vec::new(), 0));
     tape::SEARCH.with(|s| *s.borrow_mut() = Some(seed | 1));
+    tape::STREAMS.with(|t| *t.borrow_mut() = (vec![seed | 1], 0));
 }
+/// Native search: continue with the independent random stream `id` (no-op otherwise).
+#[cfg(not(kani))]
+pub fn search_stream(id: usize) {
+    tape::select_stream(id);
+}
+#[cfg(kani)]
+#[inline(always)]
+pub fn search_stream(_id: usize) {}
 /// The tape recorded so far (native).
 #[cfg(not(kani))]
 pub fn get_tape() -> Vec<Vec<u8>> {
